@@ -55,9 +55,12 @@ pub enum Wrap {
     ShadowLam,
     ShadowInLambda,
     ScopeEnd,
+    /// the reference sits in the initialiser of a top-level `let` (root position only; inside a
+    /// module it is rendered like `Plain`)
+    GlobalLet,
 }
 impl Wrap {
-    pub const ALL: [Wrap; 7] = [Wrap::Plain, Wrap::Lambda, Wrap::ShadowLet, Wrap::ShadowParam, Wrap::ShadowLam, Wrap::ShadowInLambda, Wrap::ScopeEnd];
+    pub const ALL: [Wrap; 8] = [Wrap::Plain, Wrap::Lambda, Wrap::ShadowLet, Wrap::ShadowParam, Wrap::ShadowLam, Wrap::ShadowInLambda, Wrap::ScopeEnd, Wrap::GlobalLet];
     pub fn name(&self) -> &'static str {
         match self {
             Wrap::Plain => "plain",
@@ -67,6 +70,7 @@ impl Wrap {
             Wrap::ShadowLam => "shadow-lambda-param",
             Wrap::ShadowInLambda => "shadow-let-in-lambda",
             Wrap::ScopeEnd => "scope-end",
+            Wrap::GlobalLet => "global-let",
         }
     }
     pub fn parse(s: &str) -> Wrap {
@@ -319,6 +323,8 @@ pub fn render_probe(pr: &Probe, in_module: bool, ind: &str) -> String {
         Wrap::ShadowLam => format!("{ind}{vis}fn {name}(){{ (|{n}| {n}())(| | {s}) }}\n"),
         Wrap::ShadowInLambda => format!("{ind}{vis}fn {name}(){{\n{ind}  let {n} = | | {s}\n{ind}  let k = | | {n}()\n{ind}  k()\n{ind}}}\n"),
         Wrap::ScopeEnd => format!("{ind}{vis}fn {name}(){{\n{ind}  let v = {{\n{ind}    let {n} = | | {s}\n{ind}    {n}()\n{ind}  }}\n{ind}  {r} + v * 0.0\n{ind}}}\n"),
+        Wrap::GlobalLet if !in_module => format!("let g{name} = {r}\nfn {name}(){{ g{name} }}\n"),
+        Wrap::GlobalLet => format!("{ind}{vis}fn {name}(){{ {r} }}\n"),
     }
 }
 
